@@ -447,6 +447,76 @@ def emit_apfl_apply(tree):
   return t1 + '\n' + t2
 
 
+
+# ---- constructors: init, wiring, FedProx objective, tree_l2_norm ------------------------------
+
+def emit_init(qual, opt_name, state_ty_name, coq_opt, three=False):
+  """init(params): opt_state = <optimizer>.init(params); return ServerState(params, opt_state[, client_states={}])."""
+  def emit(tree):
+    fd = find_def(tree, qual + '.init')
+    rules = [
+        (f'{opt_name}.init(E_p)', un(f'{coq_opt} {{0}}', ('E_p', VEC), ret=state_ty_name)),
+        ('ServerState(E_p, E_o)', un('({0}, {1})', ('E_p', VEC), ('E_o', state_ty_name), ret=(VEC, state_ty_name))),
+        ('mime.ServerState(E_p, E_o)', un('({0}, {1})', ('E_p', VEC), ('E_o', state_ty_name), ret=(VEC, state_ty_name))),
+        (f'ServerState(params=E_p, opt_state={opt_name}.init(E_q), client_states={{}})',
+         lambda rt, h, env: ('(' + _t(rt, h, env, 'E_p', VEC) + f', {coq_opt} ' + _t(rt, h, env, 'E_q', VEC) + ')', (VEC, state_ty_name))),
+    ]
+    return RT(rules, qual + '.init').function(fd, 'init', [('params', VEC)])
+  return emit
+
+
+def emit_wiring(qual, required, flag):
+  """The constructor wires its parts exactly as the model assumes: every `required` source line is a top-level
+  statement of `qual`, and it returns FederatedAlgorithm(init, apply)."""
+  def emit(tree):
+    fd = find_def(tree, qual)
+    lines = [src(s) for s in fd.body if isinstance(s, (ast.Assign, ast.Return))]
+    for r in required + ['return federated_algorithm.FederatedAlgorithm(init, apply)']:
+      if r not in lines:
+        raise Unsupported(f'{qual}: expected the statement `{r}`')
+    return f'(* {"; ".join(required)} *)\nDefinition {flag} : bool := true.'
+  return emit
+
+
+def emit_prox_penalty(tree):
+  """fed_prox_loss: example_loss = per_example_loss(params, batch, rng);
+  proximal_loss = 0.5 * proximal_weight * tree_l2_squared(server_params - params); return jnp.mean(example_loss + proximal_loss).
+  The penalty is translated; the objective is (mean example loss) + penalty because the penalty is a scalar."""
+  fd = find_def(tree, 'fed_prox.fed_prox_loss')
+  if [a.arg for a in fd.args.args] != ['params', 'server_params', 'batch', 'rng']:
+    raise Unsupported('fed_prox_loss: parameters')
+  body = [s for s in fd.body if not (isinstance(s, ast.Expr) and isinstance(s.value, ast.Constant))]
+  if len(body) != 3 or src(body[0]) != 'example_loss = per_example_loss(params, batch, rng)' or \
+      src(body[2]) != 'return jnp.mean(example_loss + proximal_loss)':
+    raise Unsupported('fed_prox_loss: shape of the objective changed')
+  rules = [
+      ('tree_util.tree_l2_squared(E_x)', un('sumsq {0}', ('E_x', VEC), ret='Q')),
+      ('E_a * E_b', lambda rt, h, env: (f"({_t(rt, h, env, 'E_a', 'Q')} * {_t(rt, h, env, 'E_b', 'Q')})", 'Q')),
+      ('0.5', lambda rt, h, env: ('(1 # 2)', 'Q')),
+  ] + TREE_RULES
+  rt = RT(rules, 'fed_prox_loss')
+  fd2 = ast.FunctionDef(name='penalty', args=ast.arguments(posonlyargs=[], args=[ast.arg(arg='params'), ast.arg(arg='server_params')],
+                                                          kwonlyargs=[], kw_defaults=[], defaults=[]),
+                        body=[body[1], ast.Return(value=ast.Name(id='proximal_loss', ctx=ast.Load()))], decorator_list=[])
+  return rt.function(fd2, 'proximal_penalty', [('params', VEC), ('server_params', VEC)], extra_env={'proximal_weight': 'Q'})
+
+
+def emit_l2(tree):
+  """tree_l2_squared = sum of vdot(x, x) over the leaves; tree_l2_norm = sqrt of it (the model keeps the square)."""
+  sq = find_def(tree, 'tree_l2_squared')
+  nm = find_def(tree, 'tree_l2_norm')
+  b1 = [s for s in sq.body if not (isinstance(s, ast.Expr) and isinstance(s.value, ast.Constant))]
+  b2 = [s for s in nm.body if not (isinstance(s, ast.Expr) and isinstance(s.value, ast.Constant))]
+  if len(b1) != 1 or src(b1[0]) != 'return sum((jnp.vdot(x, x) for x in jax.tree_util.tree_leaves(pytree)))':
+    raise Unsupported('tree_l2_squared changed: ' + (src(b1[0]) if b1 else ''))
+  if len(b2) != 1 or src(b2[0]) != 'return jnp.sqrt(tree_l2_squared(pytree))':
+    raise Unsupported('tree_l2_norm changed')
+  return ('(* sum(vdot(x, x) for x in leaves): the sum of the squares of all coordinates *)\n'
+          'Definition tree_l2_squared (pytree : list Q) : Q := qsum (map (fun x => x * x) pytree).\n'
+          '(* tree_l2_norm(pytree) = sqrt(tree_l2_squared(pytree)): its square is tree_l2_squared *)\n'
+          'Definition tree_l2_norm_squared (pytree : list Q) : Q := tree_l2_squared pytree.')
+
+
 PRE = ('From Coq Require Import QArith.\n'
        'From FV Require Import Common.CMonoid Common.NanQ Common.QVec Common.WMean gen.Gen_tree_util Model.C01_Model.\n'
        'Local Open Scope Q_scope.\n')
@@ -463,6 +533,8 @@ def section(grad_ty, extra=''):
           'Variable client_optimizer_init : list Q -> S.\n'
           'Variable client_optimizer_apply : list Q -> S -> list Q -> S * list Q.\n'
           'Variable server_optimizer_apply : list Q -> OS -> list Q -> OS * list Q.\n'
+          'Variable server_optimizer_init : list Q -> OS.\n'
+          'Variable proximal_weight : Q.\n'
           'Variable server_learning_rate : Q.\n'
           'Variable len : DS -> Z.                                          (* len(client_dataset) *)\n'
           'Variable shuffle_repeat_batch : DS -> list B.                    (* the batches of the view, in order *)\n'
@@ -481,6 +553,8 @@ MODULES = {
             emit_program('create_train_for_each_client', ['grad_fn', 'client_optimizer'],
                          {'cstate': {'params': VEC, 'opt_state': 'S', 'rng': 'K'}}, 'cstate', GD_FNS, ''),
             emit_fedavg_like_apply('federated_averaging'),
+            emit_init('federated_averaging', 'server_optimizer', 'OS', 'server_optimizer_init'),
+            emit_wiring('federated_averaging', ['train_for_each_client = create_train_for_each_client(grad_fn, client_optimizer)'], 'fed_avg_wiring'),
         ],
     },
     'Gen_fed_prox': {
@@ -489,6 +563,10 @@ MODULES = {
             emit_program('create_train_for_each_client', ['grad_fn', 'client_optimizer'],
                          {'cstate': {'params': VEC, 'opt_state': 'S', 'rng': 'K', 'server_params': VEC}}, 'cstate', GD_FNS, ''),
             emit_fedavg_like_apply('fed_prox'),
+            emit_init('fed_prox', 'server_optimizer', 'OS', 'server_optimizer_init'),
+            emit_prox_penalty,
+            emit_wiring('fed_prox', ['grad_fn = jax.grad(fed_prox_loss)',
+                                     'train_for_each_client = create_train_for_each_client(grad_fn, client_optimizer)'], 'fed_prox_wiring'),
         ],
     },
     'Gen_mime': {
@@ -501,6 +579,7 @@ MODULES = {
                          shared_ty='t_shared'),
             lambda tree: 'Definition grads_for_each_client := g_grads_for_each_client.\nDefinition train_for_each_client := t_train_for_each_client.',
             emit_mime_apply('mime', MIME_RECORDS, 'grads_for_each_client'),
+            emit_init('mime', 'base_optimizer', 'S', 'client_optimizer_init'),
         ],
     },
     'Gen_mime_lite': {
@@ -513,16 +592,28 @@ MODULES = {
                           '(* grads_for_each_client = mime.create_grads_for_each_client(grad_fn): supplied by Gen_mime *)\n'
                           'Variable grads_for_each_client : list Q -> list (Z * list PB * K) -> list (Z * (list NanQ.t * NanQ.t)).'),
             emit_mime_apply('mime_lite', MIMELITE_RECORDS, 'grads_for_each_client'),
+            emit_init('mime_lite', 'base_optimizer', 'S', 'client_optimizer_init'),
         ],
     },
     'Gen_hyp_cluster': {
         'src': ALG + 'hyp_cluster.py',
         'preamble': PRE + section(G3, 'Variable maximization_step : list (list Q) -> list (Z * DS * K) -> Z -> nat.   (* cluster assignment *)\n'),
         'postamble': 'End Gen.\n',
-        'items': [emit_hc_trainer, emit_hc_expectation, emit_hc_apply],
+        'items': [emit_hc_trainer, emit_hc_expectation, emit_hc_apply,
+                  emit_wiring('hyp_cluster', ['evaluator = models.AverageLossEvaluator(per_example_loss, regularizer)',
+                                              'trainer = ClientDeltaTrainer(models.grad(per_example_loss, regularizer), client_optimizer)'],
+                              'hyp_cluster_wiring')],
+    },
+    'Gen_tree_l2': {
+        'src': 'fedjax/core/tree_util.py',
+        'preamble': 'From Coq Require Import QArith.\nFrom FV Require Import Common.QVec.\nLocal Open Scope Q_scope.\n',
+        'items': [emit_l2],
     },
     'Gen_apfl': {
         'src': ALG + 'apfl.py', 'preamble': PRE + section(G3), 'postamble': 'End Gen.\n',
-        'items': [emit_apfl_program, emit_apfl_apply],
+        'items': [emit_apfl_program, emit_apfl_apply,
+                  emit_init('adaptive_personalized_federated_learning', 'server_optimizer', 'OS', 'server_optimizer_init'),
+                  emit_wiring('adaptive_personalized_federated_learning',
+                              ['train_for_each_client = create_train_for_each_client(grad_fn, client_optimizer)'], 'apfl_wiring')],
     },
 }
